@@ -11,41 +11,104 @@ from .parser_common import parser_section, protocol_section, entry_section
 from ..rtc import c09_entrypoints as drv
 
 
+def _affine(e, idx):
+    """offset k if expression e is <idx> + k for an integer literal k (k may be 0 or negative), else None"""
+    if isinstance(e, ast.Name) and e.id == idx:
+        return 0
+    if isinstance(e, ast.BinOp) and isinstance(e.op, (ast.Add, ast.Sub)):
+        sign = 1 if isinstance(e.op, ast.Add) else -1
+        if isinstance(e.right, ast.Constant) and isinstance(e.right.value, int):
+            k = _affine(e.left, idx)
+            return None if k is None else k + sign * e.right.value
+        if isinstance(e.op, ast.Add) and isinstance(e.left, ast.Constant) and isinstance(e.left.value, int):
+            k = _affine(e.right, idx)
+            return None if k is None else k + e.left.value
+    return None
+
+
+def text_reads(prog, body, text, idx, depth=0):
+    """Where the statements in *body* read the text bound to the name *text*, relative to the position bound to *idx*:
+    -> (offsets of single-character reads, offsets of prefix tests, [uses that cannot be placed]).
+    Calls that hand the text to another function of pvl.lexer are followed (the callee's own reads, shifted by the index
+    argument); len(text), enumerate(text) and the construction of the LexerError (which ends the scan) read nothing the
+    look-ahead bound is about."""
+    chars, prefixes, unknown = set(), set(), []
+    consumed = set()
+    nodes = [n for st in body for n in ast.walk(st)]
+    for n in nodes:
+        if isinstance(n, ast.Subscript) and isinstance(n.value, ast.Name) and n.value.id == text:
+            consumed.add(id(n.value))
+            k = None if isinstance(n.slice, ast.Slice) else _affine(n.slice, idx)
+            if k is None:
+                unknown.append(ast.unparse(n))
+            else:
+                chars.add(k)
+        elif isinstance(n, ast.Call):
+            f = n.func
+            if isinstance(f, ast.Attribute) and isinstance(f.value, ast.Name) and f.value.id == text:
+                consumed.add(id(f.value))
+                k = _affine(n.args[1], idx) if f.attr == "startswith" and len(n.args) == 2 and not n.keywords else None
+                if k is None:
+                    unknown.append(ast.unparse(n))
+                else:
+                    prefixes.add(k)
+                continue
+            pos = [j for j, a in enumerate(n.args) if isinstance(a, ast.Name) and a.id == text]
+            kws = [k for k in n.keywords if isinstance(k.value, ast.Name) and k.value.id == text]
+            if not pos and not kws:
+                continue
+            for j in pos:
+                consumed.add(id(n.args[j]))
+            for k in kws:
+                consumed.add(id(k.value))
+            name = ast.unparse(f)
+            if name in ("len", "enumerate", "LexerError"):
+                continue
+            callee = prog.functions.get(f"pvl.lexer.{name}")
+            if callee is None or kws or len(pos) != 1 or depth > 3:
+                unknown.append(ast.unparse(n)[:80])
+                continue
+            params = [a.arg for a in callee.args.args]
+            tparam = params[pos[0]]
+            # the callee's position parameter: the argument that is affine in our index
+            shifts = [(params[j], _affine(a, idx)) for j, a in enumerate(n.args) if j < len(params) and _affine(a, idx) is not None]
+            if len(shifts) != 1:
+                unknown.append(ast.unparse(n)[:80])
+                continue
+            iparam, shift = shifts[0]
+            c2, p2, u2 = text_reads(prog, callee.body, tparam, iparam, depth + 1)
+            chars |= {k + shift for k in c2}
+            prefixes |= {k + shift for k in p2}
+            unknown += [f"{name}: {u}" for u in u2]
+    for n in nodes:
+        if isinstance(n, ast.Name) and n.id == text and isinstance(n.ctx, ast.Load) and id(n) not in consumed:
+            unknown.append(f"the text itself escapes (line {n.lineno})")
+    return chars, prefixes, unknown
+
+
 def lookahead_section():
     s = Section("lexer-look-ahead", "frame",
-                rule="per iteration the lexer reads the text only at i-1, i, i+1 and one startswith at i+1")
+                rule="per iteration the lexer reads the text only at i-1, i, i+1 and tests prefixes at i+1 (reads inside the "
+                     "pvl.lexer helpers it hands the text to are followed)")
     prog = Program(["pvl.lexer"])
     fn = prog.functions["pvl.lexer.lexer"]
-    loop = [n for n in fn.body if isinstance(n, ast.For)][0]
-    reads = []
-    for n in ast.walk(loop):
-        if isinstance(n, ast.Subscript) and isinstance(n.value, ast.Name) and n.value.id == "s":
-            reads.append(ast.unparse(n))
-        if isinstance(n, ast.Call) and isinstance(n.func, ast.Attribute) and isinstance(n.func.value, ast.Name) \
-                and n.func.value.id == "s":
-            reads.append(ast.unparse(n))
-        if isinstance(n, ast.Call) and isinstance(n.func, ast.Name) and any(isinstance(a, ast.Name) and a.id == "s" for a in n.args):
-            reads.append(ast.unparse(n)[:60])
-    allowed_prefix = ("enumerate(s)", "_prev_char(s, i)", "_next_char(s, i)", "LexerError(")
-
-    def ok_read(r):
-        if r.startswith(allowed_prefix):
-            return True
-        # s.startswith(<prefixes>, i + 1): reads from position i+1 only (whatever expression builds the prefixes)
-        try:
-            c = ast.parse(r, mode="eval").body
-        except SyntaxError:
-            return False
-        return (isinstance(c, ast.Call) and isinstance(c.func, ast.Attribute) and c.func.attr == "startswith" and len(c.args) == 2
-                and ast.unparse(c.args[1]) == "i + 1")
-    bad = [r for r in reads if not ok_read(r)]
-    s.obl("pvl.lexer.lexer:text-read-only-at-i-1,i,i+1-and-one-startswith(i+1)", DISCHARGED if reads and not bad else FAILED,
-          "frame", detail=str(bad or reads), function="pvl.lexer.lexer")
-    for nm, want in (("_prev_char", "s[idx - 1]"), ("_next_char", "s[idx + 1]")):
-        f = prog.functions[f"pvl.lexer.{nm}"]
-        subs = [ast.unparse(n) for n in ast.walk(f) if isinstance(n, ast.Subscript)]
-        s.obl(f"pvl.lexer.{nm}:reads-exactly-{want}", DISCHARGED if subs == [want] else FAILED, "frame", detail=str(subs),
-              function=f"pvl.lexer.{nm}")
+    text = fn.args.args[0].arg
+    loops = [n for n in fn.body if isinstance(n, ast.For)]
+    ok = len(loops) == 1 and isinstance(loops[0].iter, ast.Call) and ast.unparse(loops[0].iter) == f"enumerate({text})" \
+        and isinstance(loops[0].target, ast.Tuple) and isinstance(loops[0].target.elts[0], ast.Name)
+    detail = "the scan is not a single `for i, char in enumerate(text)` loop"
+    if ok:
+        idx = loops[0].target.elts[0].id
+        chars, prefixes, unknown = text_reads(prog, loops[0].body, text, idx)
+        ok = not unknown and chars <= {-1, 0, 1} and prefixes <= {1} and bool(chars | prefixes)
+        detail = f"character reads at offsets {sorted(chars)}, prefix tests at {sorted(prefixes)}, not placed: {unknown}"
+        outside = [st for st in fn.body if st is not loops[0]]
+        c0, p0, u0 = text_reads(prog, outside, text, "<none>")
+        if c0 or p0 or [u for u in u0 if "escapes" not in u]:
+            ok = False
+            detail += f"; reads outside the loop: {sorted(c0)} {sorted(p0)} {u0}"
+    s.obl("pvl.lexer.lexer:text-read-only-at-i-1,i,i+1-and-one-startswith(i+1)", DISCHARGED if ok else FAILED,
+          "frame", detail=detail, function="pvl.lexer.lexer")
     s.assumptions.append("enumerate(s) and str.startswith(prefixes, i+1) read no further than i+1+max(len(comment opener))")
     return s
 
